@@ -17,7 +17,7 @@ From Coq Require Import Reals List Lra Lia ZArith.
 From Coquelicot Require Import Coquelicot.
 From RL Require Import Base.Outcome Base.Num Base.NumR Base.Str Model.Dual Model.Number Model.Linalg
   Model.Spline Model.PPSpline Proofs.DualP Proofs.Dual2P Proofs.SplinePoly Proofs.SplineP
-  Proofs.SplineMarsden Proofs.PPSplineP Proofs.PPSplineHom Proofs.PPSplineR Proofs.PPSplinePoly Proofs.LinalgI Proofs.PPSplineLin.
+  Proofs.SplineMarsden Proofs.PPSplineP Proofs.Colloc Proofs.PPSplineHom Proofs.PPSplineR Proofs.PPSplinePoly Proofs.LinalgI Proofs.PPSplineLin.
 Import ListNotations.
 Open Scope R_scope.
 
@@ -171,6 +171,16 @@ Theorem C15_basis_vector : forall {T : Type} {H : Num T} {E : Type} (s : @ppspli
   length ys = length xs /\
   forall j x, nth_error xs j = Some x -> exists y, nth_error ys j = Some y /\ bspldnev x i (pk s) (pt s) m None = Ok y.
 Proof. exact @pp_bspldnev_spec. Qed.
+
+(* THE COLLOCATION MATRIX, entry by entry (PPSpline::bsplmatrix): one row per data site; row j, column i holds the basis
+   derivative bspldnev(tau_j, i, k, t, m, None) of order m = row_m l r |tau| j - left_n on the first site, right_n on
+   the last (the last wins on a one-row matrix), the plain value between - whatever the site is (interior knots and end
+   points included: C14 says what that derivative is there).  Any number type. *)
+Theorem C15_collocation_entry : forall {T : Type} {H : Num T} {E : Type} (s : @ppspline T E) tau l r B j x i,
+  (1 <= pn s)%nat -> bsplmatrix s tau l r = Ok B -> nth_error tau j = Some x -> (i < pn s)%nat ->
+  exists row v, nth_error B j = Some row /\ nth_error row i = Some v /\ length row = pn s /\
+    bspldnev x i (pk s) (pt s) (row_m l r (length tau) j) None = Ok v.
+Proof. exact @collocation_entry. Qed.
 
 (* == of two splines (PartialEq for PPSpline): same order, same count, same knots, and coefficients both absent or both
    present and pairwise equal - i.e. equality of the four fields, whenever the coefficient type's == decides equality *)
